@@ -41,6 +41,7 @@ def main():
     ap.add_argument("--demo-run", default=None)
     ap.add_argument("--demo-timeout", type=int, default=300)
     ap.add_argument("--demo-tags", default="")
+    ap.add_argument("--demo-flags", default="")
     ap.add_argument("--extra-tests", default="")
     ap.add_argument("--name", default=None)
     ap.add_argument("--seed", default="1")
@@ -99,7 +100,7 @@ def main():
             for d in demos:
                 shutil.copy(d, dest)
             run = "go test -vet=off -count=1 %s -timeout %ds %s ./%s/ 2>&1 | tail -25" % (
-                ("-tags " + a.demo_tags) if a.demo_tags else "", a.demo_timeout, ("-run '%s'" % a.demo_run) if a.demo_run else "", a.demo_dest.strip("/") or ".")
+((("-tags " + a.demo_tags) if a.demo_tags else "") + " " + a.demo_flags).strip(), a.demo_timeout, ("-run '%s'" % a.demo_run) if a.demo_run else "", a.demo_dest.strip("/") or ".")
             rc, o = sh(run, cwd=mod, timeout=a.demo_timeout + 120)
             fails_with = not (("\nok " in "\n" + o) and "FAIL" not in o and "panic" not in o)
             demo_info["with_change"] = {"cmd": run, "fails": fails_with, "tail": o[-600:]}
